@@ -87,9 +87,9 @@ def build_and_audit(prop_modules):
     rc, out = run(["lake", "build"] + targets, LEAN)
     res["log"] = out[-6000:]
     axioms = {}
-    for m in re.finditer(r"'([^']+)' depends on axioms: \[([^\]]*)\]", out):
+    for m in re.finditer(r"'(\S+)' depends on axioms: \[([^\]]*)\]", out):
         axioms[m.group(1)] = [a.strip() for a in m.group(2).split(",") if a.strip()]
-    for m in re.finditer(r"'([^']+)' does not depend on any axioms", out):
+    for m in re.finditer(r"'(\S+)' does not depend on any axioms", out):
         axioms[m.group(1)] = []
     failed_modules = set()
     if rc != 0:
@@ -115,9 +115,9 @@ def build_and_audit(prop_modules):
         need = [t for t in printed if t not in axioms]
         if need and os.path.relpath(path, LEAN) not in failed_modules:
             rc2, out2 = run(["lake", "env", "lean", path], LEAN)
-            for m in re.finditer(r"'([^']+)' depends on axioms: \[([^\]]*)\]", out2):
+            for m in re.finditer(r"'(\S+)' depends on axioms: \[([^\]]*)\]", out2):
                 axioms[m.group(1)] = [a.strip() for a in m.group(2).split(",") if a.strip()]
-            for m in re.finditer(r"'([^']+)' does not depend on any axioms", out2):
+            for m in re.finditer(r"'(\S+)' does not depend on any axioms", out2):
                 axioms[m.group(1)] = []
         for t in thms:
             full = prefix + t
